@@ -11,7 +11,7 @@ RULE = ('2-4 real threads execute 1-3 statements each on one shared object: o.a 
         'PCT schedules; a thread that raises, a quiescent state with an unfinished thread (deadlock), a read that returns a value no serial '
         'order can produce, or a final value outside the set of final values of all serial orders of the same statements (computed by '
         'dynamic programming over the interleavings of whole statements) is a violation. distinct_nontrivial = distinct context-switch '
-        'sequences of runs mixing >= 2 statement kinds. Every twentieth case repeats the workload (2-5 threads x 2-6 statements) on REAL threads with the real RLock (vt/osback.py: nothing substituted, switch interval 1 us, random yields at line starts of miros code and of the statements); a run that does not finish in the wall-clock limit is inconclusive there, never a verdict. ' + sysx.RULE_TEXT % (1, 2))
+        'sequences of runs mixing >= 2 statement kinds. Every twentieth case repeats the workload (2-5 threads x 2-6 statements) on REAL threads with the real RLock (vt/osback.py: nothing substituted, switch interval 1 us, random yields at line starts of miros code and of the statements); a run that does not finish in the wall-clock limit is inconclusive there, never a verdict. ' + sysx.RULE_TEXT % (1, 1))
 CASES = {'quick': 2500, 'thorough': 150000}
 BUDGET = {'quick': 150, 'thorough': 600}
 REQUIRE = {'runs': 1000, 'runs_mixing_plain_and_augmented': 300, 'switch_between_get_and_set': 200, 'systematic_schedules': 500, 'systematic_scenarios_exhausted': 2, 'os_backend_runs': 60}
@@ -47,7 +47,7 @@ def serial_outcomes(plans):
   return go(tuple(0 for _ in plans), 0)
 
 
-SYS = {'quick': (8, 1, 3000, 75.0), 'thorough': (32, 2, 100000, 150.0)}     # systematic cases, preemption bound, schedule cap, seconds cap (per scenario)
+SYS = {'quick': (8, 1, 3000, 75.0), 'thorough': (64, 1, 100000, 120.0)}     # systematic cases, deviation bound, schedule cap, seconds cap (per scenario)
 
 
 def run_case(ctx, n):
